@@ -72,13 +72,46 @@ class TemplateSummariser(Summariser):
     def functions(self):
         return [n for n in self.model.functions if n not in ("restream", "reuse")]
 
-    # -- names: holes
+    # -- names: holes, module-level generated definitions
     def e_Name(self, node, st):
         if node.id in self.r.holes and node.id not in st.env:
             return self.hole_term(self.r.holes[node.id], st)
         if node.id in self.r.subs:
             return self.target_term(self.r.subs[node.id], st)
+        if node.id not in st.env:
+            d = self.model.module_assigns.get("construct/core.py", {}).get(node.id)
+            if d is not None and not isinstance(d, ast.Lambda) and node.id not in getattr(self, "_resolving", ()):
+                self._resolving = getattr(self, "_resolving", set()) | {node.id}
+                try:
+                    tmp = st.fork()
+                    tmp.trys = ()
+                    return ("def", node.id, self.expr(d, tmp))
+                finally:
+                    self._resolving = self._resolving - {node.id}
         return super().e_Name(node, st)
+
+    def summarise_call(self, fname, args):
+        """Paths of generated helper `fname` with its parameters bound to the call-site argument terms."""
+        fi = self.model.function(fname)
+        names = [a.arg for a in fi.node.args.posonlyargs + fi.node.args.args]
+        # wrap: def __call__(io, this[, obj]): return fname(<args>)  is what __template__ is; here bind directly
+        self._argmap = dict(zip(names, args))
+        try:
+            return self.summarise(fi, bindings={"self": ("param", "self"), "code": ("free", "code")})
+        finally:
+            self._argmap = None
+
+    def summarise(self, fi, bindings=None, self_cls=None):
+        paths = super().summarise(fi, bindings=bindings, self_cls=self_cls)
+        return paths
+
+    def block(self, stmts, st):
+        am = getattr(self, "_argmap", None)
+        if am:
+            self._argmap = None
+            for k, v in am.items():
+                st.env[k] = v
+        return super().block(stmts, st)
 
     def _emitter_expr(self, node, st):
         """Evaluate an expression of the *emitter* (hole content) in the current bindings."""
